@@ -1,7 +1,7 @@
 (* C12 — entry point of the proofs: Proofs/C12_base.v (lists, comparison, search), Proofs/C12_step.v
-   (invariant, GetBid, addBoardRecord), Proofs/C12_main.v (acceptance, refusal, name rule, histories). *)
+   (invariant, GetBid, addBoardRecord), Proofs/C12_main.v (acceptance, refusal, name rule, histories), Proofs/C12_big.v (the lookup on tables of any size). *)
 From Verif Require Import Base.Common Base.ListX Gen.Consts_default Model.C12.
-From Verif Require Export Proofs.C12_base Proofs.C12_step Proofs.C12_main.
+From Verif Require Export Proofs.C12_base Proofs.C12_step Proofs.C12_main Proofs.C12_big.
 Import ptttype.
 
 Lemma frame u s r os bid s' os' : wf s -> create_board u s r os = Done 0 bid s' os' ->
